@@ -225,6 +225,14 @@ class FloatLiteral(Literal[float]):
 
     __slots__ = ()
 
+    def __str__(self) -> str:
+        s = repr(self.value).lower()
+        if "e" in s and "." not in s:
+            # Keep a fractional part, or "1e+20" would be read back as an integer.
+            mantissa, exponent = s.split("e")
+            s = f"{mantissa}.0e{exponent}"
+        return s
+
 
 class RegexLiteral(Literal[Pattern[str]]):
     """A regex literal."""
